@@ -59,12 +59,19 @@ theorem rinv_add (st st' : RState) (n i : Str) (h : RInv st)
 theorem hasDup_append (a b : List Err) : hasDup (a ++ b) = (hasDup a || hasDup b) := by
   simp [hasDup, List.any_append]
 
-theorem addToken_inv (st : RState) (name id : Str) (h : RInv st) : RInv (addToken st name id) := by
+theorem addToken_inv (st : RState) (name id : Str) (space : Bool) (h : RInv st) :
+    RInv (addToken st name id space) := by
   unfold addToken
   split
-  · split
-    · exact ⟨h.ids_iff, by rw [hasDup_append]; simpa [hasDup, Err.isDup] using h.dup_iff⟩
-    · exact h
+  · have h1 : hasDup (if ((st.spaces.lookup name).getD false != space) = true
+        then st.errs ++ [.spaceMix name] else st.errs) = hasDup st.errs := by
+      split
+      · rw [hasDup_append]; simp [hasDup, Err.isDup]
+      · rfl
+    dsimp only
+    split
+    · exact ⟨h.ids_iff, by rw [hasDup_append, h1]; simpa [hasDup, Err.isDup] using h.dup_iff⟩
+    · exact ⟨h.ids_iff, by rw [h1]; exact h.dup_iff⟩
   · apply rinv_add st _ name (if id = [] then produce name .upperCase else id) h rfl rfl
     dsimp only
     split
@@ -97,11 +104,11 @@ theorem foldl_addNonterm (acc : List Str) (st : RState) (h : RInv st) :
     rw [List.foldl_cons, h2, addNonterm_syms]
     simp [idsOf]
 
-theorem addFlexToken_inv (st : RState) (t : Str × Str) (h : RInv st) : RInv (addFlexToken st t) := by
+theorem addFlexToken_inv (st : RState) (t : Str × Str × Bool) (h : RInv st) : RInv (addFlexToken st t) := by
   unfold addFlexToken
   split
   · exact ⟨h.ids_iff, by rw [hasDup_append]; simpa [hasDup, Err.isDup] using h.dup_iff⟩
-  · exact addToken_inv _ _ _ h
+  · exact addToken_inv _ _ _ _ h
 
 theorem foldl_inv_of {α} (f : RState → α → RState) (hf : ∀ st a, RInv st → RInv (f st a))
     (l : List α) (st : RState) (h : RInv st) : RInv (l.foldl f st) := by
@@ -113,9 +120,9 @@ theorem tokenPhase_inv (d : Decls) : RInv (tokenPhase d) := by
   unfold tokenPhase
   split
   · exact foldl_inv_of _ addFlexToken_inv _ _
-      (addToken_inv _ _ _ (addToken_inv _ _ _ (addToken_inv _ _ _ rinv_empty)))
-  · exact foldl_inv_of _ (fun st t h => addToken_inv st t.1 (lexemeId t.2) h) _ _
-      (addToken_inv _ _ _ (addToken_inv _ _ _ rinv_empty))
+      (addToken_inv _ _ _ _ (addToken_inv _ _ _ _ (addToken_inv _ _ _ _ rinv_empty)))
+  · exact foldl_inv_of _ (fun st t h => addToken_inv st t.1 (lexemeId t.2.1) t.2.2 h) _ _
+      (addToken_inv _ _ _ _ (addToken_inv _ _ _ _ rinv_empty))
 
 /-- `collectNonterms`: the error list grows, and a `dup` error is added iff a newly accepted
 nonterminal's ID is already in `ids`. -/
